@@ -55,6 +55,27 @@ def main(repo, out):
                     ('write_string_128', 'letencoded=Encoded::encode_fixed_size(&s,DEFAULT_ENCODING,128).map_err(|e|emitter.as_sized().emit(e))?;f.write_all(&encoded.0)?;Ok(())')):
         bb, _ = block_after(st, r'fn\s+' + fn + r'\b[^{;]*')
         if bb is None or nows(bb) != txt: note('unrecognised %s in formats/std.rs' % fn)
+    # mission.msg text lines (64-byte buffers under an additive cipher that the reader undoes) and the string lists of stack ECL
+    try:
+        mi = strip_comments(open(repo + '/src/formats/mission.rs').read()); e10 = strip_comments(open(repo + '/src/formats/ecl/ecl_10.rs').read())
+    except OSError:
+        mi = ''; e10 = ''; note('not found: src/formats/mission.rs or src/formats/ecl/ecl_10.rs')
+    for src_, fn, txt in (
+        (mi, 'write_mission_text_lines', 'for(line,s)intext.iter().enumerate(){letmutencoded=Encoded::encode_fixed_size(&s,DEFAULT_ENCODING,64).map_err(|e|emitter.emit(e))?;'
+                                         'for(byte,c)inencoded.0.iter_mut().zip(cipher.bytes_for_line(line)){*byte=u8::wrapping_sub(*byte,c)}writer.write_all(&encoded.0)?;}Ok(())'),
+        (mi, 'read_mission_text_lines', None),
+        (e10, 'write_string_list', None), (e10, 'read_string_list', None)):
+        bb, _ = block_after(src_, r'fn\s+' + fn + r'\b[^{;]*')
+        nb_ = nows(bb or '')
+        if txt is not None:
+            if nb_ != txt: note('unrecognised %s' % fn)
+        elif fn == 'read_mission_text_lines':
+            if not ('letmutbytes=reader.read_byte_vec(64)?;for(byte,c)inbytes.iter_mut().zip(cipher.bytes_for_line(line)){*byte=u8::wrapping_add(*byte,c)}'
+                    'letmutencoded=Encoded(bytes);encoded.trim_first_nul(emitter,true);encoded.decode(DEFAULT_ENCODING)') in nb_: note('unrecognised read_mission_text_lines')
+        elif fn == 'write_string_list':
+            if 'forstringinstrings{letencoded=Encoded::encode(&string,DEFAULT_ENCODING).map_err(|e|emitter.emit(e))?;writer.write_cstring(&encoded,1)?;num_bytes_written+=encoded.len()+1;}' not in nb_: note('unrecognised write_string_list in ecl_10.rs')
+        else:
+            if 'letencoded=reader.read_cstring_blockwise(1)?;num_bytes_read+=encoded.len()+1;letstring=encoded.decode(DEFAULT_ENCODING).map_err(|e|emitter.emit(e))?;Ok(sp!(string))' not in nb_: note('unrecognised read_string_list in ecl_10.rs')
     b, _ = block_after(par, r'pub\s+fn\s+parse_string_literal\b[^{]*')
     if b is None: note('not found: parse_string_literal'); b = ''
     mb, _ = block_after(b, r'if\s+escape\s*\{\s*escape\s*=\s*false;\s*match\s+c\s*')
